@@ -41,10 +41,7 @@ type desc struct {
 	Ops             []op   `json:"ops"`
 }
 
-const (
-	keyF1 = "closeidle-closes-conn-with-request-in-hand"
-	keyF2 = "shutdown-drops-unflushed-pipelined-response"
-)
+const keyF1 = "closeidle-closes-conn-with-request-in-hand"
 
 // ---- scripted connection ----------------------------------------------------------------------------------------------------
 
@@ -658,11 +655,8 @@ func runCase(d desc) hlib.Case {
 		r.c.clientClose()
 	}
 	key := ""
-	switch {
-	case rn.heldAfterSd && !d.Deadlines:
+	if rn.heldAfterSd && !d.Deadlines {
 		key = keyF1
-	case rn.pipelined:
-		key = keyF2
 	}
 	kind := d.Class
 	if rn.stuck {
@@ -719,7 +713,8 @@ func corpus() []desc {
 		{Class: "heldread", Ops: ops("servestart accept:1 finish sendheld shutdown release finish")},
 		{Class: "heldread", Deadlines: true, Ops: ops("servestart accept:1 finish sendheld shutdown release")},
 		{Class: "heldread", Ops: ops("servestart accept:1 finish sendheld release finish shutdown")},
-		// FINDING shutdown-drops-unflushed-pipelined-response
+		// pipelining: a response held back for a buffered request is flushed when the loop leaves on the stop flag
+		// (regression for the repaired finding shutdown-drops-unflushed-pipelined-response, 66dbd41)
 		{Class: "pipelined", Ops: ops("servestart accept:2 shutdown finish")},
 		{Class: "pipelined", CloseOnShutdown: true, Ops: ops("servestart accept:2 shutdown finish")},
 		{Class: "pipelined", Ops: ops("servestart accept:2 finish shutdown finish")},
